@@ -351,11 +351,11 @@ def processLine (line : String) : String :=
   | "gen" :: args => genLine args impl
   | "sl" :: args => slLine args impl
   | "slx" :: args => slxLine args impl
-  | ["slaba"] =>
+  | "slaba" :: _ =>
     -- K1 replay on the real code only (a 360 000-step execution is not simulated by the model): the
     -- implementation's verdict is passed through
     let torn := impl.headD "" == "torn"
-    s!"{String.intercalate " " impl} | {if torn then "C02:FAILS" else "C02:holds"} | k1
+    String.intercalate " " impl ++ " | " ++ (if torn then "C02:FAILS" else "C02:holds") ++ " | k1"
   | "poll" :: args => (DriverP.line "poll" args impl).getD "bad-op | |"
   | "world" :: args => (DriverW.line "world" args impl).getD "bad-op | |"
   | "drift" :: args => driftLine args (match impl with | "refused" :: _ => ["refused"] | x => x)
